@@ -328,6 +328,12 @@ def run(ctx):
                         if isinstance(tt_, ast.Attribute) and tt_.attr == attr and not is_self_attr(tt_) and \
                                 ('self.' + attr) in unparse(vv_):
                             return st_
+                if isinstance(st_.value, ast.Call) and is_self_attr(st_.value.func) and st_.value.func.attr in meths and \
+                        st_.value.func.attr not in helpers_seen and \
+                        st_.value.func.attr not in ('filtered_context', 'extended_with'):
+                    # the new database comes from a helper of the class that fills these fields
+                    if _assigns(meths[st_.value.func.attr].body, attr, helpers_seen + (st_.value.func.attr,)) is not None:
+                        return st_
             elif isinstance(st_, ast.If):
                 a_, b_ = _assigns(st_.body, attr, helpers_seen), _assigns(st_.orelse, attr, helpers_seen)
                 if a_ is not None and b_ is not None:
